@@ -68,12 +68,20 @@ pub fn replay(case: &J) -> J {
     let src = format!("{} {} {}", mv::src(&case["a"], lift), sym(case["op"].as_str().unwrap()), mv::src(&case["b"], lift));
     let o = s.eval(&src);
     let ok = outcome_matches(&case["exp"], &o, &s.heap.borrow(), lift);
-    crate::ev::clear_stats();
-    if ok {
-        json!({"evals": 1, "mismatches": []})
-    } else {
-        json!({"evals": 1, "mismatches": [{"src": src, "exp": case["exp"], "obs": describe(&o, &s.heap.borrow())}]})
+    let mut mism = vec![];
+    if !ok { mism.push(json!({"src": src, "exp": case["exp"], "obs": describe(&o, &s.heap.borrow())})); }
+    // the same operands reached through names (one value on both sides: the second name is an alias of the first), and
+    // once more as elements of a list, so that shared heap cells sit below the broadcast as well
+    let aliased = case["a"] == case["b"];
+    let _ = s.eval(&format!("zza = {}", mv::src(&case["a"], lift)));
+    let _ = s.eval(&if aliased { "zzb = zza".to_string() } else { format!("zzb = {}", mv::src(&case["b"], lift)) });
+    let src2 = format!("zza {} zzb", sym(case["op"].as_str().unwrap()));
+    let o2 = s.eval(&src2);
+    if !outcome_matches(&case["exp"], &o2, &s.heap.borrow(), lift) {
+        mism.push(json!({"src": format!("zza = {} ; zzb = {} ; {}", mv::src(&case["a"], lift), if aliased { "zza".to_string() } else { mv::src(&case["b"], lift) }, src2), "exp": case["exp"], "obs": describe(&o2, &s.heap.borrow())}));
     }
+    crate::ev::clear_stats();
+    json!({"evals": 2, "mismatches": mism})
 }
 
 // ---------------------------------------------------------------- impl -> spec
